@@ -27,7 +27,7 @@ CHECKS = {
     "C04": dict(
         category="exploration",
         technique="runtime monitor: exhaustive small-scope enumeration of function bodies compared with an independent label-scope model; accepted bodies executed",
-        text="All bodies with <= 4 (quick) / <= 6 (thorough) statement nodes over labels, gotos, conditional gotos, assignments and nested blocks, plus random bodies with if/else blocks, are compiled; verdict and the set {E400,E420} must equal the model's, and accepted bodies must take the path their gotos prescribe (exit status encodes the path).",
+        text="All bodies with <= 4 (quick) / <= 6 (thorough) statement nodes over labels, gotos, conditional gotos, assignments and nested blocks, an if/else family whose two braced branches are each a short label/goto sequence, plus random bodies with if/else blocks, are compiled; verdict and the set {E400,E420} must equal the model's, and accepted bodies must take the path their gotos prescribe (exit status encodes the path).",
         note="Model written from docs/features.md and the property text; code sets are compared, multiplicities only recorded.",
         design="5 C04"),
     "C05": dict(
@@ -39,7 +39,7 @@ CHECKS = {
     "C06": dict(
         category="exploration",
         technique="runtime monitor: exhaustive small-scope enumeration of statement trees compared with a placement model (codes and L1800 count); accepted bodies executed",
-        text="All statement lists with <= 4 / <= 6 nodes over blocks, if/else/else-if with every branch form (goto, braced, naked statement, naked loop, naked if), loop, goto, assignment, label are compiled; the code set {E800,E801,E840} and the number of L1800 lints must equal the model's.",
+        text="All statement lists with <= 4 / <= 6 nodes over blocks, if/else/else-if with every branch form (goto, braced, naked statement, naked loop, naked if), loop, goto, assignment, label are compiled; the code set {E800,E801,E840} and the number of L1800 lints must equal the model's; every 4th body also with its assignments replaced by a call statement, a builtin call or a declaration, and with an undefined variable in the first condition (E402 must then come with, not instead of, the placement codes).",
         note="What a naked (E840) branch contains is not judged separately (the statement is poisoned as a whole).",
         design="5 C06"),
     "C07": dict(
@@ -75,7 +75,7 @@ CHECKS = {
     "C12": dict(
         category="exploration",
         technique="runtime monitor: metamorphic module partition x file order against the reference interpreter, visibility probes, history monitor over one Compiler, valgrind memcheck over multi-module compilations",
-        text="Generated programs are cut into 2-4 modules with the induced pub/import declarations and compiled through the multi-module path in all (or 6 random) file orders: each must be accepted and print what the reference interpreter prints; probes reference public, private and transitively imported functions/constants/structures from outside in every file order (E401/E402/E405 expected for the invisible ones; body-less public heads and a diamond import included); valgrind memcheck watches whole multi-module compilations; a generated module is compiled among 1-3 unrelated modules sharing builtins, private names and string literals and must behave as when compiled alone, with valid linked IR.",
+        text="Generated programs are cut into 2-4 modules with the induced pub/import declarations (import lines at the top or scattered among the declarations) and compiled through the multi-module path in all (or 6 random) file orders: each must be accepted and print what the reference interpreter prints; probes reference public, private and transitively imported functions/constants/structures from outside in every file order (E401/E402/E405 expected for the invisible ones; body-less public heads and a diamond import included); valgrind memcheck watches whole multi-module compilations; two modules with a private extern function of the same name are linked in every order; a generated module is compiled among 1-3 unrelated modules sharing builtins, private names and string literals and must behave as when compiled alone, with valid linked IR.",
         note="The splitter adds the imports that interfaces of imported public items need (imports are not re-exported).",
         design="5 C12"),
     "C13": dict(
@@ -105,19 +105,19 @@ CHECKS = {
     "C16": dict(
         category="exploration",
         technique="runtime monitor: three-way tree comparison (generator's own syntax tree, second-generation XML dump decoded by an independent reader, first-generation AST) plus an XML well-formedness checker",
-        text="Generated syntactic modules covering every declaration kind, type form, statement, expression form, precedence level and both list styles in random layouts, and all valid corpus files: the second-generation parser must accept them, its XML must be balanced with no MALFORMED node, and the decoded tree must equal the generator's tree and the first-generation parser's tree (names, flags, types, statement order, operand order, nesting, literal values).",
+        text="Generated syntactic modules (opaque structures, pub imports, digit separators, address markers inside length-of included) covering every declaration kind, type form, statement, expression form, precedence level and both list styles in random layouts, all valid corpus files and special modules at the limits of the grammar (address depth 1/2/126/127 in four positions, trailing commas everywhere, empty lists): the second-generation parser must accept them, its XML must be balanced with no MALFORMED node, and the decoded tree must equal the generator's tree and the first-generation parser's tree (names, flags, types, statement order, operand order, nesting, literal values).",
         note="Normal form bridges representation only (folded negative literals, concatenated strings decoded by a reference decoder, return label vs keyword, type wrappers). Strings do not start/end with a double quote because the XML dump trims all quotes.",
         design="5 C16"),
     "C17": dict(
         category="exploration",
         technique="runtime monitor: header XML compared with the expected interface computed from the generator's tree and with the parse of the restricted module; exhaustive public/private patterns",
-        text="For every sequence of up to 3 (quick) / 4 (thorough) declarations over {const, fn, fn head, struct, word} x every public/private mask, plus random larger modules with imports and big bodies, the header extracted by the second-generation front end must equal the public declarations in order with pub cleared and bodies removed, must equal the tree of the module printed with only its public declarations, and must not mention private names or body statements.",
+        text="For every sequence of up to 3 (quick) / 4 (thorough) declarations over {const, fn, fn head, struct (also opaque), word, import (also pub import)} x every public/private mask, plus random larger modules with imports and big bodies, the header extracted by the second-generation front end must equal the public declarations in order with pub cleared and bodies removed, must equal the tree of the module printed with only its public declarations, and must not mention private names or body statements; a node-kind monitor over the header's whole node array (worker option header_kinds) asserts that no node of a kind that only occurs in function bodies or marks private zones rides along unseen by the XML dump.",
         note="The header builder is additionally run under Miri through C15's inputs (it writes through MaybeUninit and calls set_len).",
         design="5 C17"),
     "C20": dict(
         category="exploration",
         technique="runtime monitor: rebuild round trip (parse, rebuild, re-parse, compare trees, rebuild again, compare bytes) over generated modules and the corpus",
-        text="Generated syntactic modules without builtin calls and all corpus files that parse: the rebuilt text must lex and parse without error, its tree must equal the original up to locations and literal spelling/suffix, and a second rebuild must be byte-identical.",
+        text="Generated syntactic modules without builtin calls and all corpus files and documentation examples that parse: the rebuilt text must lex and parse without error, its tree must equal the original up to locations and literal spelling/suffix, and a second rebuild must be byte-identical.",
         note="Two annotation forms of the rebuilder (`Name#?`, `struct#Name`) are a listed finding and are stripped by a keyed, string-aware normalisation so that everything else is still compared.",
         design="5 C20"),
     "C18": dict(
